@@ -399,7 +399,9 @@ func (txn *Txn[T]) Prefix(key index.Key) *Iterator[T] {
 		}
 		node = node.children[getBitAt(data, node.prefixLen())]
 	}
-	if node == nil {
+	if node == nil || matchLen != prefixLen {
+		// Either ran out of nodes or the key diverges from the node's
+		// prefix, in which case nothing below it is covered by the key.
 		return nil
 	}
 	return &Iterator[T]{start: node}
